@@ -91,26 +91,27 @@ func (l *FLock) UnmarshalJSON(b []byte) error {
 
 // Profile steers the generator (one per property check; written by checks/*.py).
 type Profile struct {
-	Weights     map[string]int `json:"weights"`
-	MaxLen      int            `json:"max_len"`
-	MinLen      int            `json:"min_len"`
-	Sessions    int            `json:"sessions"`
-	Names       []string       `json:"names"` // hex
-	Sizes       []*int32       `json:"sizes"`
-	Lts         []*int32       `json:"lts"`
-	Wts         []*int32       `json:"wts"`
-	RenewLts    []int32        `json:"renew_lts"`
-	Advs        []int64        `json:"advs"`
-	NoClear     []bool         `json:"noclear"`
-	File        []bool         `json:"file"`
-	Gc          [][2]int64     `json:"gc"` // (interval, minIdle)
-	Dlt         []int64        `json:"dlt"`
-	Shards      []uint32       `json:"shards"`
-	ProbeEvery  int            `json:"probe_every"`  // probe after every n-th event (0: only at the end)
-	ProbeAround bool           `json:"probe_around"` // probe before every request as well (C07)
-	BadKeyPct   int            `json:"bad_key_pct"`
-	NoSessPct   int            `json:"no_sess_pct"`
-	Drain       bool           `json:"drain"` // finish with TryLocks until refused on every name
-	StickySizePct int          `json:"sticky_size_pct"` // chance that a Lock/TryLock asks for the size the name was last granted with
-	InitFilePct   int          `json:"init_file_pct"`   // share of the histories that boot on a generated state file (gen.go InitFile); ids f<seed>-<k>
+	Weights       map[string]int `json:"weights"`
+	MaxLen        int            `json:"max_len"`
+	MinLen        int            `json:"min_len"`
+	Sessions      int            `json:"sessions"`
+	Names         []string       `json:"names"` // hex
+	Sizes         []*int32       `json:"sizes"`
+	Lts           []*int32       `json:"lts"`
+	Wts           []*int32       `json:"wts"`
+	RenewLts      []int32        `json:"renew_lts"`
+	Advs          []int64        `json:"advs"`
+	NoClear       []bool         `json:"noclear"`
+	File          []bool         `json:"file"`
+	Gc            [][2]int64     `json:"gc"` // (interval, minIdle)
+	Dlt           []int64        `json:"dlt"`
+	Shards        []uint32       `json:"shards"`
+	ProbeEvery    int            `json:"probe_every"`  // probe after every n-th event (0: only at the end)
+	ProbeAround   bool           `json:"probe_around"` // probe before every request as well (C07)
+	BadKeyPct     int            `json:"bad_key_pct"`
+	PartialPct    int            `json:"partial_pct"` // ipcu: share replaced by the macro "two holds of a counting lock, release one, unlock by name"
+	NoSessPct     int            `json:"no_sess_pct"`
+	Drain         bool           `json:"drain"`           // finish with TryLocks until refused on every name
+	StickySizePct int            `json:"sticky_size_pct"` // chance that a Lock/TryLock asks for the size the name was last granted with
+	InitFilePct   int            `json:"init_file_pct"`   // share of the histories that boot on a generated state file (gen.go InitFile); ids f<seed>-<k>
 }
